@@ -378,7 +378,7 @@ CFG = {
     "Disallow": lambda: T.Disallow, "Python": lambda: T.Python(), "Delegate": lambda: T.DelegatesTo("d"),
     "Proto": lambda: T.PrototypedFrom("d", "x"), "PropPlain": lambda: T.Property(getp, setp),
     "PropValidated": lambda: T.Property(getp, setp, trait=T.Int), "PropType": lambda: WithProp.class_traits()["p"],
-    "Callable": lambda: T.Callable(), "This": lambda: T.This(), "String": lambda: T.String(minlen=1, maxlen=3),
+    "Callable": lambda: T.Callable(), "This": lambda: T.This(), "String": lambda: T.String("ab", minlen=1, maxlen=3),
     "Trait": lambda: T.Trait(1, 2, "a"), "TraitNoneFoo": lambda: T.Trait(None, Foo), "CInt": lambda: T.CInt(), "Bool": lambda: T.Bool(),
     "Date": lambda: T.Date(), "UUID": lambda: T.UUID(), "Supports": lambda: T.Supports(Foo), "Type": lambda: T.Type(Foo),
     "WeakRef": lambda: T.WeakRef(Foo), "Button": lambda: T.Button(), "DynRange": lambda: T.Range("lo", "hi"),
@@ -471,6 +471,98 @@ def defs_run(case, ctx):
                     ctx.fail("definition/get-differs", "%s via %s: shadow reads %r, original %r" % (name, how, b, a))
 
 
+# ----------------------------------------------------------------------------- stage objkinds
+OBJ_ROUTES = ["p2", "p5", "deepcopy", "clone_deep", "clone_none", "copy"]
+OBJ_STATES = ["fresh", "read", "assigned"]
+OBJ_VALUES = {"Int": 9, "Float": 2.5, "Str": "zz", "Range": 0.25, "RangeInt": 4, "Enum": 2, "Tuple": (4, "q"), "List": [4, 5],
+              "Dict": {"k": 1}, "Set": {4}, "Either": "w", "Union": "w", "Any": (1, 2), "Map": "a", "PrefixList": "no",
+              "PrefixMap": "no", "ReadOnly": 6, "Python": 8, "PropPlain": 3, "PropValidated": 3, "Callable": len, "String": "ab",
+              "Trait": "a", "CInt": "12", "Bool": True, "DynRange": 3, "DynEnum": 2, "Expression": "1+2", "ListList": [[1], [2]],
+              "EitherMap": 5, "AnyCmpNone": [1], "IntCmpIdentity": 4, "ListCmpNone": [3]}
+OBJ_CLASSES = {}
+
+
+def _objkind_class(name):
+    # (module-level classes, so that pickle can find them by reference)
+    if name not in OBJ_CLASSES:
+        ns = {"x": CFG[name](), "lo": Int(0), "hi": Int(5), "vals": List([1, 2]), "d": Instance(HasTraits), "other": Int(1),
+              "__module__": __name__, "__qualname__": "OK_" + name}
+        cls = type("OK_" + name, (HasTraits,), ns)
+        globals()["OK_" + name] = cls
+        OBJ_CLASSES[name] = cls
+    return OBJ_CLASSES[name]
+
+
+def objkinds_gen(tier, shard, nshards):
+    n = 0
+    for name in CFG:
+        if name in ("PropType", "Delegate", "Proto"):
+            continue
+        for state in OBJ_STATES:
+            for how in OBJ_ROUTES:
+                if n % nshards == shard:
+                    yield {"kind": name, "state": state, "route": how}
+                n += 1
+
+
+def objkinds_run(case, ctx):
+    """An object whose single interesting attribute is of the given kind, in the given state, through the given copy
+    route: the copy exists, holds equal state and governs its attribute like the original."""
+    name, state, how = case["kind"], case["state"], case["route"]
+    cls = _objkind_class(name)
+    o = cls(other=2)
+    ctx.nontrivial()
+    if state == "read":
+        try:
+            o.x
+        except Exception:
+            pass
+    elif state == "assigned":
+        if name not in OBJ_VALUES:
+            return
+        try:
+            o.x = OBJ_VALUES[name]
+        except Exception:
+            return
+    sig = "/" + name if name in ("UUID", "ReadOnly5") else ""
+    if not sig:
+        # the object's own current value (its library-given default) is not acceptable to its own trait: Date() / Time() /
+        # Datetime() and Either(...) default to None without accepting None.  Restoring state goes through validation (F47)
+        try:
+            cls.__class_traits__["x"].validate(o, "x", getattr(o, "x"))
+        except TraitError:
+            sig = "/default-outside-domain"
+        except Exception:
+            pass
+    try:
+        if how.startswith("p"):
+            c = pickle.loads(pickle.dumps(o, int(how[1])))
+        elif how == "deepcopy":
+            c = copy.deepcopy(o)
+        elif how == "copy":
+            c = copy.copy(o)
+        else:
+            c = o.clone_traits(copy="deep" if how == "clone_deep" else None)
+    except Exception as e:
+        if isinstance(e, TypeError) and "code object" in str(e):
+            sig = "/dynamic-code-object"
+        ctx.fail("object/%s-raised%s" % ("pickle" if how.startswith("p") else how, sig),
+                 "%s of an object with x = %s (state %s) raised %r" % (how, name, state, e))
+    if type(c) is not cls:
+        ctx.fail("copy/class", "%s gives a %s" % (how, type(c).__name__))
+    if c.other != 2:
+        ctx.fail("state/value", "%s: other attribute is %r" % (how, c.other))
+    a = outcome(lambda: getattr(o, "x"))
+    b = outcome(lambda: getattr(c, "x"))
+    if a != b and " at 0x" not in str(a) + str(b) and not (name == "UUID" and not how.startswith("p") and how != "copy"):
+        ctx.fail("state/value", "%s: x (%s, state %s) reads %r on the image, %r on the original" % (how, name, state, b, a))
+    for v in VALS[:10]:
+        a = outcome(lambda: (setattr(o, "x", v), getattr(o, "x"))[1]) if False else outcome(lambda: cls.__class_traits__["x"].validate(o, "x", v))
+        b = outcome(lambda: type(c).__class_traits__["x"].validate(c, "x", v))
+        if a != b and " at 0x" not in str(a) + str(b):
+            ctx.fail("live/validate-differs", "%s: validate(%r) on the image gives %r, original %r (%s)" % (how, v, b, a, name))
+
+
 # ----------------------------------------------------------------------------- stage defgrid
 def defgrid_gen(tier, shard, nshards):
     """Every configuration of the C01/C03 lattice (and, for the trait types outside it, of the C01 extras) as a trait
@@ -544,5 +636,6 @@ def stages(tier):
         {"name": "objects", "kind": "hyp", "strategy": objects_strategy, "run": objects_run,
          "examples": {"quick": 10000, "thorough": 250000}, "shards": 16},
         {"name": "defs", "kind": "enum", "gen": defs_gen, "run": defs_run, "shards": 16, "exhaustive": True},
+        {"name": "objkinds", "kind": "enum", "gen": objkinds_gen, "run": objkinds_run, "shards": 16, "exhaustive": True},
         {"name": "defgrid", "kind": "enum", "gen": defgrid_gen, "run": defgrid_run, "shards": 16, "exhaustive": True},
     ]
